@@ -134,6 +134,9 @@ where
         A: Float + FromPrimitive,
     {
         let observation_axis = Axis(1);
+        if self.len_of(observation_axis) == 0 {
+            return Err(EmptyInput);
+        }
         let n_observations = A::from_usize(self.len_of(observation_axis)).unwrap();
         let dof = if ddof >= n_observations {
             panic!(
